@@ -159,7 +159,7 @@ def _enumerate(ctx: core.Ctx, shard: int, nshards: int, maxlen: int, stride: int
                 continue
             if any(a["t"] == "text" and b["t"] == "text" for a, b in zip(seq, seq[1:])):
                 continue
-            ctx.run({"pieces": [dict(p) for p in seq]})
+            ctx.run({"pieces": [dict(p) for p in seq]}, enumerated=True)
 
 
 @st.composite
@@ -201,7 +201,7 @@ def _enumerate_sampled3(ctx: core.Ctx, shard: int, nshards: int, stride: int) ->
             continue
         if any(a["t"] == "text" and b["t"] == "text" for a, b in zip(seq, seq[1:])):
             continue
-        ctx.run({"pieces": [dict(p) for p in seq]})
+        ctx.run({"pieces": [dict(p) for p in seq]}, enumerated=True)
 
 
 def finish_kwargs(ctx: core.Ctx, tier: str) -> dict:
